@@ -9,6 +9,7 @@ package main
 //   libIndex n                    the index expression of `libInfos[…]` in (*libStatus).calcLIB, with
 //                                 len(libInfos) as the parameter n
 //   gcNumLimit cr                 the returned expression of libStatus.gcNumLimit
+//   factoryConfirms no lpbNo      the argument of block.SetConfirms(…) in (*BlockFactory).generateBlock (blockfactory.go)
 //   begRecoBlockNo cr libNo end   the body of (*libStatus).begRecoBlockNo (conditional re-assignments of one
 //                                 local are emitted as `let x := if c then e else x`)
 //
@@ -82,6 +83,11 @@ func (q *lqCtx) rewrite(e ast.Expr) (ast.Expr, error) {
 		}
 		return &ast.BinaryExpr{X: a, Op: x.Op, Y: b, OpPos: x.OpPos}, nil
 	case *ast.CallExpr:
+		if se, ok := x.Fun.(*ast.SelectorExpr); ok && len(x.Args) == 0 && se.Sel.Name == "BlockNo" {
+			if id, ok := se.X.(*ast.Ident); ok {
+				return &ast.Ident{Name: id.Name + "_BlockNo", NamePos: x.Pos()}, nil
+			}
+		}
 		if len(x.Args) != 1 {
 			return nil, fmt.Errorf("call %s unsupported", exprString(x.Fun))
 		}
@@ -397,6 +403,30 @@ func cmdLibQuorum(args []string) error {
 	}
 	emit("begRecoBlockNo", "libStatus.begRecoBlockNo", fd.Pos(),
 		[]string{q.recv + "_confirmsRequired", q.recv + "_Lib_BlockNo", fd.Type.Params.List[0].Names[0].Name}, body)
+
+	// 6. blockfactory.go generateBlock: the argument of block.SetConfirms(…)
+	fd, err = need("BlockFactory.generateBlock")
+	if err != nil {
+		return err
+	}
+	var setc []*ast.CallExpr
+	ast.Inspect(fd.Body, func(n ast.Node) bool {
+		if c, ok := n.(*ast.CallExpr); ok {
+			if se, ok := c.Fun.(*ast.SelectorExpr); ok && se.Sel.Name == "SetConfirms" && len(c.Args) == 1 {
+				setc = append(setc, c)
+			}
+		}
+		return true
+	})
+	if len(setc) != 1 {
+		return fmt.Errorf("libquorum: generateBlock: expected exactly one SetConfirms(…) call, found %d", len(setc))
+	}
+	q = &lqCtx{ctx: ctx, fi: &fnInfo{name: "factoryConfirms"}}
+	e, err = q.expr(setc[0].Args[0])
+	if err != nil {
+		return fmt.Errorf("libquorum: SetConfirms argument: %v", err)
+	}
+	emit("factoryConfirms", "BlockFactory.generateBlock/SetConfirms", setc[0].Pos(), []string{"block_BlockNo", "lpbNo"}, "  "+e)
 
 	// every identifier used must be a parameter or a local: Lean will reject anything else at build time.
 	fmt.Fprintf(&b, "end %s\n", *ns)
